@@ -9,6 +9,8 @@ package k8s
 import (
 	"crypto/sha1" //nolint:gosec // Non-crypto use
 	"encoding/hex"
+	"sort"
+	"strings"
 
 	v1 "k8s.io/apimachinery/pkg/apis/meta/v1"
 	"k8s.io/apimachinery/pkg/labels"
@@ -62,41 +64,21 @@ func SelectorsFullMatch(ruleSelector, repSelector *v1.LabelSelector) (bool, erro
 	// v1.LabelSelectorAsSelector:
 	// https://github.com/kubernetes/apimachinery/blob/dc7e034c86479d49be4b0eefad307621e10caa0e/pkg/apis/meta/v1/helpers.go#L34
 	// Requirements.Add : https://github.com/kubernetes/apimachinery/blob/d7e1c5311169d5ece2db0ae0118066859aa6f7d8/pkg/labels/selector.go#L373
-	ruleRequirements, _ := ruleSelectorConverted.Requirements() // sorted
-	repRequirements, _ := repSelectorConverted.Requirements()   // sorted
+	// however, requirements with the same key keep the order in which they were written, and the order of a requirement's values
+	// is as written too; so the requirements are compared by their strings (`Requirement.String` sorts the values), sorted
+	ruleRequirements, err := sortedRequirementsStrings(ruleSelectorConverted)
+	if err != nil {
+		return false, err
+	}
+	repRequirements, err := sortedRequirementsStrings(repSelectorConverted)
+	if err != nil {
+		return false, err
+	}
 	if len(ruleRequirements) != len(repRequirements) {
 		return false, nil
 	}
 	for i := range ruleRequirements {
-		// ruleRequirements[i].Equal(repRequirements[i]) returns false if the values are not in same order
-		// (stringslices.Equal returns true only if two slices have same length and same order of items)
-		// however, `Requirement.String` sorts the values using `safeSort`, so will compare by string
-		// link to Requirement.String() :
-		// https://github.com/kubernetes/apimachinery/blob/d7e1c5311169d5ece2db0ae0118066859aa6f7d8/pkg/labels/selector.go#L310
-		ruleRequirementsStr := ruleRequirements[i].String()
-		repRequirementsStr := repRequirements[i].String()
-
-		// handling special case of one requirement has `In` operator with 1 value, and other requirement has "=" operator (from matchLabel)
-		// for example : req1 := (app in x), req2 := (app=x) >> we expect a full match, however,
-		// labels pkg treats them as different requirements
-		// i.e. ruleRequirements[i].Equal(repRequirements[i]) and ruleRequirements[i].String() == repRequirements[i].String() return false
-		// requirement.String() : returns <key>=<values> string for "Equals" operator and returns (<key> in (<values));
-		// so, in case on requirement is "in" with one value only, will convert its string to the <key>=<values> format to get correct result
-		newRuleRequirementsStr, err := replaceStringOfRequirementWithInOpAndSingleValue(ruleRequirements[i])
-		if err != nil {
-			return false, err
-		}
-		if newRuleRequirementsStr != "" {
-			ruleRequirementsStr = newRuleRequirementsStr
-		}
-		newRepRequirementsStr, err := replaceStringOfRequirementWithInOpAndSingleValue(repRequirements[i])
-		if err != nil {
-			return false, err
-		}
-		if newRepRequirementsStr != "" {
-			repRequirementsStr = newRepRequirementsStr
-		}
-		if ruleRequirementsStr != repRequirementsStr {
+		if ruleRequirements[i] != repRequirements[i] {
 			return false, nil
 		}
 	}
@@ -117,31 +99,43 @@ func replaceStringOfRequirementWithInOpAndSingleValue(req labels.Requirement) (s
 	return "", nil
 }
 
+// sortedRequirementsStrings returns the strings of the requirements of the given selector, sorted;
+// so selectors with same keys, operators and values get the same list whatever the order in which their requirements
+// (and the values of each requirement) were written.
+// a requirement with In operator and a single value is written as the equivalent "key=val" requirement:
+// labels pkg treats (app in x) and (app=x) as different requirements, but we expect them to match
+// (see tests/exposure_test_different_but_equiv_rules)
+func sortedRequirementsStrings(selector labels.Selector) ([]string, error) {
+	requirements, _ := selector.Requirements()
+	res := make([]string, len(requirements))
+	for i := range requirements {
+		// `values` list in a requirement is not sorted internally, Requirement.String() - sorts it
+		res[i] = requirements[i].String()
+		newStr, err := replaceStringOfRequirementWithInOpAndSingleValue(requirements[i])
+		if err != nil {
+			return nil, err
+		}
+		if newStr != "" {
+			res[i] = newStr
+		}
+	}
+	sort.Strings(res)
+	return res, nil
+}
+
 // UniqueKeyFromLabelsSelector returns a unique hash key from given labelSelector, so selectors with same keys, operators and values
 // will get same hash key (even if the order of keys was not same in different rules/policies)
 func UniqueKeyFromLabelsSelector(ls *v1.LabelSelector) (string, error) {
-	// since labels.selector.Requirements() returns sorted by key list of requirements, its string used to generate the hash-key
-	// this will ensure keeping uniqueness of representative peers in the policy-engine
 	selector, err := v1.LabelSelectorAsSelector(ls)
 	if err != nil {
 		return "", err
 	}
-	requirements, _ := selector.Requirements()
-	// calculating string of requirements (`values` list in a requirement is not sorted internally, Requirement.String() - sorts it)
-	reqStr := ""
-	for _, req := range requirements {
-		currentStr := req.String()
-		// for special case of a requirement with In operator and only one value, convert its string to "key=val" (instead of key in (val))
-		// example: so only one representative peer is generated for both rules : app In [x] and app=x
-		// (see tests/exposure_test_different_but_equiv_rules)
-		newStr, err := replaceStringOfRequirementWithInOpAndSingleValue(req)
-		if err != nil {
-			return "", err
-		}
-		if newStr != "" {
-			currentStr = newStr
-		}
-		reqStr += currentStr
+	// the string of the sorted requirements is used to generate the hash-key;
+	// this will ensure keeping uniqueness of representative peers in the policy-engine
+	requirements, err := sortedRequirementsStrings(selector)
+	if err != nil {
+		return "", err
 	}
+	reqStr := strings.Join(requirements, "")
 	return hex.EncodeToString(sha1.New().Sum([]byte(reqStr))), nil //nolint:gosec // Non-crypto use
 }
